@@ -1264,11 +1264,27 @@ sexp sexp_apply (sexp ctx, sexp proc, sexp args) {
   case SEXP_OP_RESUMECC:
     sexp_context_top(ctx) = top;
     tmp1 = stack[fp-1];
-    if ((sexp_sint_t)sexp_vector_length(sexp_vector_ref(cp, 0)) <= base
 #if SEXP_USE_GREEN_THREADS
-        && ctx == root_thread
+    if (ctx != root_thread) {
+      /* Another thread's VM is running us.  If we're in a procedure
+         called from C ourselves (the frame chain leads to the final
+         resumer of a nested sexp_apply) and the continuation lies
+         outside of it, we have to get back to our own VM first -
+         let the others run and try again. */
+      for (i=fp; i>4 && i+3<top && sexp_fixnump(stack[i+3])
+             && sexp_unbox_fixnum(stack[i+3])<i; i=sexp_unbox_fixnum(stack[i+3]))
+        if (stack[i+2] == sexp_global(ctx, SEXP_G_FINAL_RESUMER))
+          break;
+      if (i>4 && i+3<top && stack[i+2] == sexp_global(ctx, SEXP_G_FINAL_RESUMER)
+          && sexp_fixnump(stack[i+3])
+          && (sexp_sint_t)sexp_vector_length(sexp_vector_ref(cp, 0)) <= sexp_unbox_fixnum(stack[i+3])+4) {
+        ip--;
+        fuel = 0;
+        goto loop;
+      }
+    } else
 #endif
-        ) {
+    if ((sexp_sint_t)sexp_vector_length(sexp_vector_ref(cp, 0)) <= base) {
       /* The continuation was captured outside of this (nested) call
          to sexp_apply, i.e. we're escaping from a procedure called
          from C.  We can't resume it here, underneath the C frames -
